@@ -73,7 +73,7 @@ EXTRA = [
     {"name": "BoxCox2", "kw": {"nu": 1.0, "lam": -0.5, "minilam": -1.0}, "shift": 2.0, "od": [-3.0]},
 ]
 
-AFFINE = [(2.0, 0.0), (-0.5, 1.5), (1.0, -3.0)]
+AFFINE = [(2.0, 0.0), (-0.5, 1.5), (1.0, -3.0), (1.0, 262144.0), (1.0, -262144.0)]   # the last two: |mean|/sd ~ 2e5, still non-degenerate (1e-6 relative)
 SCALES = [3.0, 0.25]
 TINY = 2.0 ** -40
 
